@@ -30,7 +30,7 @@ KeysInRangeC(idx, lo, hi) == SortedIds({k \in Keys : idx[k] # Absent /\ InLoC(k,
 SeqToSetC(q) == {q[i] : i \in 1..Len(q)}
 
 NoTh == [pc |-> "done", opi |-> 1, k |-> 0, c |-> Absent, keys |-> <<>>, unref |-> <<>>, rolled |-> FALSE,
-         item |-> Absent, oi |-> 0, res |-> "none", resn |-> 0, seen |-> {}, failed |-> FALSE]
+         item |-> Absent, oi |-> 0, res |-> "none", resn |-> 0, seen |-> {}, failed |-> FALSE, repl |-> Absent]
 
 ConcInit(n, idx, cas, nv, orph, progs) ==
     [n |-> n, idx |-> idx, intents |-> [k \in Keys |-> Absent], icount |-> [c \in AllContents |-> 0],
@@ -101,7 +101,7 @@ StepT(s, t) ==
                 k  == IF "k" \in DOMAIN op THEN op.k ELSE 0
                 s2 == [s1 EXCEPT !.th[t] = [@ EXCEPT !.k = k, !.c = IF "c" \in DOMAIN op THEN op.c ELSE Absent,
                                                      !.seen = IF k = 0 THEN {} ELSE {s.idx[k]}, !.res = "none"]]
-            IN (CASE op.op \in {"put", "txfinish"} -> At(s2, t, "staged")
+            IN (CASE op.op \in {"put", "txfinish", "putfail"} -> At(s2, t, "staged")
                  \* an aborted transaction, and the beginning of one that stays open, touch nothing shared
                  [] op.op \in {"abort", "txbegin", "txabort"} -> Ret(s2, t, "ok", 0)
                  [] op.op \in {"get", "size", "range", "reader", "del", "delr", "guard"} -> At(s2, t, "Sr:read")
@@ -116,8 +116,16 @@ StepT(s, t) ==
                         ELSE Ret(s2, t, "false", 0))
       [] p = "staged" -> At(s1, t, "I:register")
       [] p = "I:register" ->      \* lock, remember replaced, insert, unlock
-            At([s1 EXCEPT !.intents[me.k] = me.c, !.icount[me.c] = @ + 1], t, "F:rename")
-      [] p = "F:rename" -> At([s1 EXCEPT !.cas = @ \cup {me.c}], t, "I:put")
+            At([s1 EXCEPT !.intents[me.k] = me.c, !.icount[me.c] = @ + 1, !.th[t].repl = s.intents[me.k]], t, "F:rename")
+      \* "putfail": a commit whose rename into cas/ fails (fault x concurrency): nothing reaches cas/, the IntentGuard is dropped
+      [] p = "F:rename" -> IF CurOp(s, t).op = "putfail" THEN At(s1, t, "I:intent_drop")
+                           ELSE At([s1 EXCEPT !.cas = @ \cup {me.c}], t, "I:put")
+      \* IntentGuard::drop of a commit that was not applied: its protection is given back (one count of its hash, nothing of
+      \* anybody else's), the key's slot is restored to what it replaced if it still holds this commit's hash
+      [] p = "I:intent_drop" ->
+            LET own  == s.intents[me.k] = me.c
+                ints == IF own THEN [s.intents EXCEPT ![me.k] = me.repl] ELSE s.intents
+            IN Ret([s1 EXCEPT !.intents = ints, !.icount[me.c] = @ - 1], t, "failed", 0)
       [] p \in {"I:put", "I:rm"} -> At([s1 EXCEPT !.lkI = t], t, "Sw:apply")
       [] p = "Sw:apply" -> At([s1 EXCEPT !.lkS = t, !.wq = @ \ {t}], t, "W:apply")
       [] p = "W:apply" ->         \* WalManager::append_op: the record is durable when this step ends
@@ -206,7 +214,9 @@ C05_ReadOk(s) == \A t \in Threads(s) :
 
 \* C07 at quiescence of an error-free program
 C07_QuiescentExact(s) == AllDone(s) => s.cas \ SeqToSetC(s.orph) = Live(s.idx) \ SeqToSetC(s.orph)
-                                         /\ \A k \in Keys : s.intents[k] = Absent
+                                         \* (error-free programs; after a reverted commit a per-key slot may stay - observation F9)
+                                         /\ ((\A t \in Threads(s) : \A i \in 1..Len(s.prog[t]) : s.prog[t][i].op # "putfail")
+                                               => \A k \in Keys : s.intents[k] = Absent)
 
 \* C15: lock order is acyclic (edges: held -> acquired)
 C15_LockOrderAcyclic(s) == ~(\E a, b \in {"I", "S", "W"} : a # b /\ <<a, b>> \in s.edges /\ <<b, a>> \in s.edges)
